@@ -95,7 +95,7 @@ def modes_list(nx, ny, dx, dy):
     return out
 
 
-def study(S, f, zt, n0, stretched, nx, ny, dx, dy, frac_levels=(0.5, 1.0)):
+def study(S, f, zt, n0, stretched, nx, ny, dx, dy, frac_levels=(1.0, 0.5)):  # measurement height first
     """returns per (mode, level, field) the errors at n0, 4n0, 16n0 for resolved, bounded-growth modes"""
     res = []
     runs = [solver_transfer(S, f, zt, n, stretched, nx, ny, dx, dy, frac_levels) for n in (n0, 4 * n0, 16 * n0)]
